@@ -81,7 +81,9 @@ def family(ctx: Ctx) -> List[Tuple[str, str, Dict[str, Any]]]:
         g = GroupSpec({"a": (LSIG[la], "LogicSig"), "b": (LSIG[lb], "LogicSig")},
                       [TxnSpec("TA", "pay", logic_sig="a", absolute_index=aa, relative_indexes=dict(ra)),
                        TxnSpec("TB", "pay", logic_sig="b", absolute_index=ab, relative_indexes=dict(rb))])
-        add(f"two/{la}-{lb}-{rn}-{aa}{ab}", g, yaml=(hash((la, lb, rn)) % 7 == 0))
+        add(f"two/{la}-{lb}-{rn}-{aa}{ab}", g, yaml=(len(la) + len(lb) + len(rn)) % 7 == 0)
+        # the same configuration with the transactions listed in the other order (verdicts must not depend on it)
+        add(f"two-rev/{la}-{lb}-{rn}-{aa}{ab}", GroupSpec(g.contracts, list(reversed(g.txns))))
     # pay (logic-sig) + application call that checks the payment
     apps = ["nocheck", "noupdate", "creator_only", "checks_abs0_rekey", "checks_prev_rekey_fee", "checks_prev_rekey", "update_by_creator", "noupdel", "noop_only"]
     combos2 = list(itertools.product(["nocheck", "fee", "crt"], apps, rel_variants[:5], [(None, None), (0, 1)]))
@@ -92,6 +94,7 @@ def family(ctx: Ctx) -> List[Tuple[str, str, Dict[str, Any]]]:
                       [TxnSpec("TA", "pay", logic_sig="a", absolute_index=aa, relative_indexes=dict(ra)),
                        TxnSpec("TB", "appl", application="app", absolute_index=ab, relative_indexes=dict(rb))])
         add(f"payapp/{la}-{an}-{rn}-{aa}{ab}", g)
+        add(f"payapp-rev/{la}-{an}-{rn}-{aa}{ab}", GroupSpec(g.contracts, list(reversed(g.txns))))
     # three transactions: T0 app checks T1 (prev) while T2 is unrelated; a transaction with both a logic-sig and an application
     trip = list(itertools.product(["nocheck", "rekey", "next_rekey"], ["nocheck", "prev_rekey"], ["checks_prev_rekey", "nocheck", "noupdate"], rel_variants[:4]))
     if ctx.quick:
@@ -101,6 +104,7 @@ def family(ctx: Ctx) -> List[Tuple[str, str, Dict[str, Any]]]:
                       [TxnSpec("TA", "pay", logic_sig="a", relative_indexes=dict(ra)), TxnSpec("TB", "axfer", logic_sig="b", relative_indexes=dict(rb)),
                        TxnSpec("TC", "appl", application="app", logic_sig=None, relative_indexes={"TB": -1} if rn != "none" else {})])
         add(f"three/{l0}-{l1}-{an}-{rn}", g)
+        add(f"three-rot/{l0}-{l1}-{an}-{rn}", GroupSpec(g.contracts, g.txns[1:] + g.txns[:1]))
     for ln in ("nocheck", "rekey"):
         for an in ("nocheck", "noupdate"):
             add(f"both/{ln}-{an}", GroupSpec({"l": (LSIG[ln], "LogicSig"), "a": (APP[an], "ApprovalProgram")}, [TxnSpec("T0", "appl", logic_sig="l", application="a")]))
